@@ -361,7 +361,9 @@ class History:
             msg = str(exc)
             # (a quoted unseen value may spell like another feature's name: "values: ['c0'] of feature 'o2'")
             named = [f for f in feats if f"feature '{f}'" in msg or f"feature '{raw_column(o, f)}'" in msg] or \
-                    [f for f in feats if f"'{f}'" in msg or f"'{raw_column(o, f)}'" in msg]
+                    [f for f in feats if f"'{f}'" in msg or f"'{raw_column(o, f)}'" in msg] or \
+                    [f for f in feats if re.search(r'(?<![A-Za-z0-9_])%s(?![A-Za-z0-9_])' % re.escape(str(f)), msg)
+                     or re.search(r'(?<![A-Za-z0-9_])%s(?![A-Za-z0-9_])' % re.escape(str(raw_column(o, f))), msg)]
             ev['named_raw'] = named
         self.events.append(ev)
         return len(self.events)
@@ -678,7 +680,7 @@ class Encoder:
                 e['inputs_unchanged'] = bool(ev['inputs_unchanged'])
                 e['shape_ok'] = bool(ev['shape_ok'])
                 named = ev.get('named_raw') or []
-                e['named'] = (fnames.index(named[0]) + 1) if (named and named[0] in fnames) else 0
+                e['named'] = [fnames.index(nm) + 1 for nm in named if nm in fnames]      # every feature the message names
             elif ev['ev'] == 'reload':
                 e.update({'src': ev['src'], 'json_ok': bool(ev['json_ok']), 'json_idempotent': bool(ev['json_idempotent']),
                           'summary_equal': bool(ev['summary_equal']), 'history_equal': bool(ev.get('history_equal', True))})
